@@ -212,6 +212,31 @@ def run(tier):
         meta.append((snap, reqs, answers))
         if ok and hc0:
             hcases.append(hc0)
+        # a description the dict database refuses (duplicate names ...) is refused by the lazily loading JSON database as well:
+        # on EVERY request, not only the first one, and by its pickle
+        if not ok and ci % (3 if big else 4) == 0:
+            try:
+                paths = []
+                for k, p in enumerate(snap):
+                    pth = os.path.join(tmp, f'{ci}_r{k}.json')
+                    with open(pth, 'w') as fh:
+                        json.dump(p, fh)
+                    paths.append(pth)
+                jdb = dbm.JsonDatabase(*paths)
+                for rnd in range(2):
+                    for q in (reqs + ['x', 'y'])[:4]:
+                        if answer(jdb, q) is not None:
+                            raise AssertionError(f'request {q!r} (round {rnd + 1}) was answered')
+                try:
+                    j2 = pickle.loads(pickle.dumps(jdb))
+                except Exception:
+                    j2 = None                     # refusing to pickle is a rejection too
+                if j2 is not None and any(answer(j2, q) is not None for q in reqs[:2]):
+                    raise AssertionError('the pickled database answers')
+            except AssertionError as e:
+                failures.append(dict(kind='history', summary=f'JSON database over a description that must be rejected ({snap}): {e}'[:700], config=dict(parts=snap, reqs=reqs)))
+            except Exception:
+                pass
         # JSON-backed database and its pickle answer identically
         if ok and ci % (10 if big else 12) == 0:
             try:
